@@ -171,6 +171,105 @@ Theorem old_float_text_refuted :
   exists t, g_shape t = true /\ is_float_literal (old_float t) = false.
 Proof. exists (s2z "1E+06"). vm_compute. split; reflexivity. Qed.
 
+
+(* ================= complex numbers ================= *)
+(* the shape of what the repaired formatFloat writes for a text of the %G shape without sign *)
+Lemma fix_float_shape b : g_shape_abs b = true ->
+  exists ip f tail, fix_float b = ip ++ 46 :: f ++ tail /\ int_part_ok ip = true /\
+    forallb digit f = true /\ nonempty f = true /\
+    (tail = [] \/ exists sg ds, tail = 69 :: sg :: ds /\ is_sign sg = true /\ ordinal_ok ds = true /\ forallb digit ds = true).
+Proof.
+  unfold g_shape_abs, fix_float. destruct (cut_E b) as [m e]. intros H.
+  apply andb_true_iff in H as [Hm He]. unfold mant_ok in Hm.
+  destruct (cut_dot m) as [ip fp] eqn:Ecd. apply andb_true_iff in Hm as [Hip Hfp].
+  pose proof (cut_dot_spec m ip fp Ecd) as Em.
+  assert (Hm' : exists f, (if zmem 46 m then m else m ++ [46; 48]) = ip ++ 46 :: f
+                          /\ forallb digit f = true /\ nonempty f = true).
+  { destruct fp as [f|].
+    - apply andb_true_iff in Hfp as [Hn Hd]. exists f. subst m.
+      rewrite zmem_app, zmem_cons, Z.eqb_refl. cbn [orb]. rewrite orb_true_r. auto.
+    - exists [48]. subst m. rewrite app_nil_r, (zmem_digits_dot ip (int_part_digits _ Hip)). auto. }
+  destruct Hm' as [f [Ef [Hfd Hfn]]]. rewrite Ef.
+  destruct e as [[|sg ds]|].
+  - discriminate.
+  - unfold exp_ok in He. apply andb_true_iff in He as [He Hz]. apply andb_true_iff in He as [He Hd].
+    apply andb_true_iff in He as [Hs Hn].
+    exists ip, f, (69 :: sg :: trim_zeros ds). cbv beta iota. rewrite <- app_assoc.
+    split; [reflexivity|]. repeat (split; [assumption|]). right.
+    exists sg, (trim_zeros ds). repeat split; auto using ordinal_of_trim, trim_zeros_digits.
+  - exists ip, f, []. cbv beta iota. rewrite app_nil_r. repeat (split; [auto|]). left; reflexivity.
+Qed.
+
+(* a character that ends a float inside a complex number: not a digit, not e / E *)
+Definition stop (c : Z) : bool := negb (digit c) && negb (c =? 69) && negb (c =? 101).
+
+Lemma float_prefix_abs_build ip f tail c rest :
+  int_part_ok ip = true -> forallb digit f = true -> nonempty f = true ->
+  (tail = [] \/ exists sg ds, tail = 69 :: sg :: ds /\ is_sign sg = true /\ ordinal_ok ds = true /\ forallb digit ds = true) ->
+  stop c = true ->
+  float_prefix_abs ((ip ++ 46 :: f ++ tail) ++ c :: rest) = Some (c :: rest).
+Proof.
+  intros Hip Hf Hn Htail Hc. unfold stop in Hc.
+  apply andb_true_iff in Hc as [Hc H101]. apply andb_true_iff in Hc as [Hcd H69].
+  apply negb_true_iff in Hcd. apply negb_true_iff in H69. apply negb_true_iff in H101.
+  unfold float_prefix_abs. rewrite <- app_assoc. cbn [app].
+  rewrite (span_digits_all ip (46 :: (f ++ tail) ++ c :: rest) (int_part_digits _ Hip)) by reflexivity.
+  rewrite Hip, Z.eqb_refl. rewrite <- app_assoc.
+  destruct Htail as [->|[sg [ds [-> [Hs [Ho Hd]]]]]].
+  - cbn [app]. rewrite (span_digits_all f (c :: rest) Hf Hcd), Hn.
+    destruct rest as [|c2 r]; [reflexivity|]. rewrite H69, H101. reflexivity.
+  - rewrite (span_digits_all f ((69 :: sg :: ds) ++ c :: rest) Hf) by reflexivity.
+    rewrite Hn. cbn [app]. rewrite Z.eqb_refl, Hs. cbn [orb andb].
+    rewrite (span_digits_all ds (c :: rest) Hd Hcd), Ho. reflexivity.
+Qed.
+
+(* formatFloat's text followed by a stop character: float_ matches exactly that text *)
+Lemma float_prefix_fix t c rest : g_shape t = true -> stop c = true ->
+  float_prefix (fix_float t ++ c :: rest) = Some (c :: rest).
+Proof.
+  unfold g_shape. destruct t as [|a r]; [discriminate|].
+  destruct (a =? 45) eqn:E.
+  - apply Z.eqb_eq in E. subst a. intros H Hc. rewrite fix_float_minus.
+    unfold float_prefix. cbn [app strip_sign]. change (is_sign 45) with true. cbv beta iota.
+    destruct (fix_float_shape r H) as [ip [f [tail [Ef [Hip [Hf [Hn Ht]]]]]]]. rewrite Ef.
+    apply float_prefix_abs_build; assumption.
+  - intros H Hc.
+    destruct (fix_float_shape (a :: r) H) as [ip [f [tail [Ef [Hip [Hf [Hn Ht]]]]]]]. rewrite Ef.
+    unfold float_prefix.
+    assert (Hs : strip_sign ((ip ++ 46 :: f ++ tail) ++ c :: rest) = (ip ++ 46 :: f ++ tail) ++ c :: rest).
+    { destruct ip as [|d ip']; [discriminate|]. cbn [app strip_sign].
+      assert (Hd : digit d = true).
+      { pose proof (int_part_digits _ Hip) as Hall. cbn [forallb] in Hall. apply andb_true_iff in Hall as [Hd _]. exact Hd. }
+      rewrite (digit_not_sign d Hd). reflexivity. }
+    rewrite Hs. apply float_prefix_abs_build; assumption.
+Qed.
+
+(* complex_text_ok: under the %G-shape hypothesis on both parts (and: the text of a part that is
+   not >= 0 starts with a minus sign) what formatComplex writes is a complex literal *)
+Theorem complex_text_ok tr ti (nonneg : bool) :
+  g_shape tr = true -> g_shape ti = true ->
+  (nonneg = false -> exists r, ti = 45 :: r) ->
+  is_complex_literal (40 :: fix_float tr ++ (if nonneg then [43] else []) ++ fix_float ti ++ [105; 41]) = true.
+Proof.
+  intros Hr Hi Hneg. unfold is_complex_literal. rewrite Z.eqb_refl. cbn [andb].
+  destruct nonneg.
+  - cbn [app]. rewrite (float_prefix_fix tr 43 (fix_float ti ++ [105; 41]) Hr eq_refl).
+    change (is_sign 43) with true. cbn [andb].
+    rewrite (float_prefix_fix ti 105 [41] Hi eq_refl). reflexivity.
+  - destruct (Hneg eq_refl) as [r ->]. rewrite fix_float_minus. cbn [app].
+    rewrite (float_prefix_fix tr 45 (fix_float r ++ [105; 41]) Hr eq_refl).
+    change (is_sign 45) with true. cbn [andb].
+    assert (Hr' : g_shape_abs r = true) by (unfold g_shape in Hi; rewrite Z.eqb_refl in Hi; exact Hi).
+    destruct (fix_float_shape r Hr') as [ip [f [tail [Ef [Hip [Hf [Hn Ht]]]]]]]. rewrite Ef.
+    unfold float_prefix.
+    assert (Hs : strip_sign ((ip ++ 46 :: f ++ tail) ++ [105; 41]) = (ip ++ 46 :: f ++ tail) ++ [105; 41]).
+    { destruct ip as [|d ip']; [discriminate|]. cbn [app strip_sign].
+      assert (Hd : digit d = true).
+      { pose proof (int_part_digits _ Hip) as Hall. cbn [forallb] in Hall. apply andb_true_iff in Hall as [Hd _]. exact Hd. }
+      rewrite (digit_not_sign d Hd). reflexivity. }
+    rewrite Hs, (float_prefix_abs_build ip f tail 105 [41] Hip Hf Hn Ht eq_refl). reflexivity.
+Qed.
+
 (* ================= runes and strings ================= *)
 Lemma hexd_hexdig d : 0 <= d < 16 -> hexd (hexdig d) = true.
 Proof.
@@ -367,3 +466,14 @@ Proof.
   apply pieces34_body. apply (quote_body_pieces (length s)). lia.
 Qed.
 End Quoting.
+
+(* the model's complex text, under the oracle hypotheses on both parts *)
+Theorem complex_intrinsic_ok (ftext : Z -> list Z) (printable : Z -> bool) w re im ab ph t :
+  g_shape (ftext re) = true -> g_shape (ftext im) = true ->
+  (f_nonneg im = false -> exists r, ftext im = 45 :: r) ->
+  intrinsic_text ftext printable (VComplex w re im ab ph) = Some t ->
+  is_complex_literal t = true.
+Proof.
+  intros Hr Hi Hneg H. simpl in H. inversion H; subst. unfold float_text.
+  apply complex_text_ok; assumption.
+Qed.
